@@ -258,7 +258,14 @@ def run_pyvc(cfg, rep, tier):
             else:
                 payload.update(replayed=False)
                 rp = write_replay(cfg.PROP, short, payload)
-                rep.violation("pyvc:" + short, "obligation refuted by the solver (%s); model %s does not fail natively" % (e["detail"], e["models"][:1]), rp + " no-failing-input-found")
+                v = dict(signature="pyvc:" + short, detail="obligation refuted by the solver (%s); model %s does not fail natively" % (e["detail"], e["models"][:1]),
+                         replay=rp + " no-failing-input-found")
+                if getattr(h, "structural", False):
+                    # the obligation pins down an internal arrangement the property does not prescribe: it is a
+                    # violation only together with a semantic difference found by the bounded tier of this check
+                    rep.__dict__.setdefault("structural_refuted", []).append(v)
+                else:
+                    rep.violations.append(v)
         elif e["status"] == "unknown":
             if name in baseline:
                 # discharged on the pinned tree, not discharged now: reported as a violation without a
@@ -373,6 +380,14 @@ def main(argv=None):
             cfg.bounded(a.tier, seed, rep)
     except Exception:
         rep.crashes.append(traceback.format_exc()[-3000:])
+    sr = getattr(rep, "structural_refuted", [])
+    if sr:
+        if rep.violations:
+            rep.violations.extend(sr)
+        else:
+            for v in sr:
+                rep.undecide("%s: structural obligation does not hold for this code and the bounded tier found no semantic difference (%s)"
+                             % (v["signature"], v["detail"][:160]))
     return finish(cfg, rep)
 
 
